@@ -241,20 +241,24 @@ def run(rep: Report, prog: Program, tier: str) -> None:
     rep.floor("R14.4", 64)
     # timeline wrapper
     tl = prog.func("redress.policy.runner.timeline:_resolve_timeline")
-    hook = tl.nested.get("hook") or next(iter(tl.nested.values()), None)
+    from .common import timeline_hook
+
+    hook, hook_ref = timeline_hook(prog)
     if hook is None:
-        raise AnalysisError("timeline wrapper (nested function of _resolve_timeline) vanished")
+        raise AnalysisError("timeline wrapper (the function _resolve_timeline installs as the metric hook) not found")
     rep.analysed(hook.qual)
+    hp = hook.param_names()[1:] if hook.is_method and not hook.is_staticmethod else hook.param_names()
     for p in engine(prog).paths(hook):
         recs = [e for e in p.calls() if e.is_repo("_TimelineCollector.record")]
         dele = [e for e in p.calls() if e.callback() == "on_metric"]
-        params = [("param", n) for n in hook.param_names()]
+        params = [("param", n) for n in hp]
         rep.instance("R14.4", "timeline-hook|" + "|".join(p.describe()[-2:]))
         # record(...) by the callee's parameter names (positional or keyword), in the order event, attempt, sleep_s, tags
-        ok = len(recs) == 1 and set(recs[0].kwargs) == {"event", "attempt", "sleep_s", "tags"} and all(recs[0].kwargs[k] == ("param", hook.param_names()[i]) for i, k in enumerate(("event", "attempt", "sleep_s", "tags"))) and all(d.args == params for d in dele) and len(dele) <= 1
+        ok = len(recs) == 1 and set(recs[0].kwargs) == {"event", "attempt", "sleep_s", "tags"} and all(recs[0].kwargs[k] == ("param", hp[i]) for i, k in enumerate(("event", "attempt", "sleep_s", "tags"))) and all(d.args == params for d in dele) and len(dele) <= 1
         if dele:
             ok = ok and p.index_of(recs[0]) < p.index_of(dele[0])
-        none_branch = any(a == ("cmp", "is", ("free", "on_metric"), ("const", None)) and pol for a, pol, _ in p.conds)
+        # "no caller hook": the closure's free `on_metric`, or the field of the collector it was stored in
+        none_branch = any(a[0] == "cmp" and a[1] == "is" and a[3] == ("const", None) and pol and (a[2] == ("free", "on_metric") or (isinstance(a[2], tuple) and a[2][0] == "attr" and a[2][1] == ("param", hook.param_names()[0]))) for a, pol, _ in p.conds)
         ok = ok and (bool(dele) != none_branch)
         if ok:
             rep.ok("R14.4")
@@ -268,7 +272,7 @@ def run(rep: Report, prog: Program, tier: str) -> None:
             if off:
                 ok = rv == ("tuple", (("const", None), ("param", "on_metric")))
             else:
-                ok = rv[0] == "tuple" and len(rv[1]) == 2 and rv[1][1] == ("global", hook.qual)
+                ok = rv[0] == "tuple" and len(rv[1]) == 2 and rv[1][1] == hook_ref
             if ok:
                 rep.ok("R14.4")
             else:
